@@ -87,6 +87,8 @@ pub enum GlideOp {
     Run(u32),
     /// run for the settle time of the setting in effect (capped by the budget)
     RunSettle,
+    /// n times: set_time(a), one sample, set_time(b), one sample (many honoured / ignored calls in a row)
+    TimeBurst { a: f32, b: f32, n: u16 },
 }
 
 #[derive(Debug, Clone, Serialize, Deserialize, PartialEq)]
@@ -138,9 +140,23 @@ fn run_c13_with(case: &GlideCase, budget: u64, stats: &mut Stats, robust: bool) 
     let mut fast_time_seen = false;
     let mut settle_checks = 0u64;
 
-    for (step, op) in case.ops.iter().enumerate() {
+    let mut expanded: Vec<GlideOp> = Vec::with_capacity(case.ops.len());
+    for op in &case.ops {
+        if let GlideOp::TimeBurst { a, b, n } = op {
+            for _ in 0..*n {
+                expanded.push(GlideOp::SetTime(*a));
+                expanded.push(GlideOp::Run(1));
+                expanded.push(GlideOp::SetTime(*b));
+                expanded.push(GlideOp::Run(1));
+            }
+        } else {
+            expanded.push(op.clone());
+        }
+    }
+    for (step, op) in expanded.iter().enumerate() {
         let mut run_n: u64 = 0;
         match op {
+            GlideOp::TimeBurst { .. } => {}
             GlideOp::SetTime(t) | GlideOp::FastSwitch(t) => {
                 let t = match op {
                     GlideOp::FastSwitch(u) => (*u as f64 * 2.0 / fs) as f32,
